@@ -26,9 +26,6 @@ structure Defects where
   /-- judge tolerance for KF-C10-divider-full-copy as seen by C11: the overflow chain stored in a divider (a cell of an
       interior page) is not counted as a reference -/
   dividerSharesChain : Bool := false
-  /-- judge tolerance for KF-C11-drop-not-transactional: the tree of a relation whose DROP was rolled back is not counted (the DROP
-      freed its pages at once; the rollback only revived the catalog row) -/
-  dropRollbackFreed : Bool := false
   deriving Repr, DecidableEq
 
 def Defects.none : Defects := {}
